@@ -7,6 +7,8 @@ import (
 
 	"github.com/algorand/go-algorand/agreement"
 	"github.com/algorand/go-algorand/data/basics"
+
+	"verif/sim/kernel"
 )
 
 // Synchronous phase for C05 (bounded liveness): after the asynchronous prefix all faults stop
@@ -110,6 +112,10 @@ func (s *Sim) runSyncPhase() {
 	start := s.step
 	for ; s.step < start+syncStepCap; s.step++ {
 		if s.viol != nil || s.harness != "" {
+			return
+		}
+		if s.step%64 == 0 && kernel.PastHardStop() {
+			s.stat("run_cut_by_budget", 1)
 			return
 		}
 		done := true
